@@ -33,6 +33,7 @@ type StepObs struct {
 	MPool   [NAddr]int     // references in the guest-module usage pool, per key
 	Writers [NAddr]int     // references in caddy's writers pool: [0] = stderr (relative to the start of the case), [k] = probe writer k
 	PP, PS  []int          // observed provisioning / start order (prefix, failing app last)
+	Alive   []int          // context numbers of configurations that are NOT running (rejected, replaced, validated, stopped) whose context.Context has not been cancelled
 	Err     string         // error text (diagnostics only)
 	Extra   map[string]int // goroutines, fds (diagnostics / growth oracle)
 }
@@ -345,6 +346,7 @@ func RunCase(ops []Op, enforce bool) []StepObs {
 	caseNonce++
 	nonce := caseNonce
 	evlog, ordLog = nil, nil
+	ctxByCid = map[int]caddy.Context{}
 	mu.Unlock()
 	defer func() { _ = caddy.Stop() }()
 	time.Sleep(0)
@@ -352,6 +354,7 @@ func RunCase(ops []Op, enforce bool) []StepObs {
 
 	var out []StepObs
 	var running *Cfg // the harness's own account of what should be running (spec)
+	runningCid := -1
 	for i, op := range ops {
 		mu.Lock()
 		curOp = i
@@ -420,9 +423,12 @@ func RunCase(ops []Op, enforce bool) []StepObs {
 		// what should be running now, by the harness's own bookkeeping
 		switch {
 		case op.Kind == 'S':
-			running = nil
+			running, runningCid = nil, -1
 		case op.Kind != 'V' && err == nil && attempted != nil:
 			running = attempted
+			if o.Res != "same" {
+				runningCid = i
+			}
 		}
 		want := wantSocks(running)
 		deadline := time.Now().Add(250 * time.Millisecond)
@@ -453,6 +459,14 @@ func RunCase(ops []Op, enforce bool) []StepObs {
 			o.PP = observedOrder(ord, 'P', err, reLoadingApp)
 			o.PS = observedOrder(ord, 'S', err, reStartApp)
 		}
+		mu.Lock()
+		for cid, c := range ctxByCid {
+			if cid != runningCid && c.Err() == nil {
+				o.Alive = append(o.Alive, cid)
+			}
+		}
+		mu.Unlock()
+		sort.Ints(o.Alive)
 		ws := caddy.VerifWritersSnapshot()
 		o.Writers[0] = ws["std:err"] - stderr0
 		for k := 1; k < NAddr; k++ {
@@ -675,6 +689,53 @@ func F2Leak(attempted *Cfg, o StepObs) map[int][]int {
 				break
 			}
 		}
+	}
+	return out
+}
+
+// WantPool: usage-pool references the running configuration accounts for (one per guest module).
+func WantPool(running *Cfg) [NAddr]int {
+	var w [NAddr]int
+	if running != nil {
+		for _, a := range running.Apps {
+			for _, m := range a.Mods {
+				w[m.Key]++
+			}
+		}
+	}
+	return w
+}
+
+// Uncleaned: labels of probe module instances that were provisioned (event "p") for a context
+// other than `running` and have no Cleanup (event "c") so far.
+func Uncleaned(obs []StepObs, running int) []string {
+	prov := map[string]bool{}
+	var order []string
+	for _, o := range obs {
+		for _, e := range o.Events {
+			if len(e) < 2 {
+				continue
+			}
+			switch e[0] {
+			case 'p':
+				if !prov[e[1:]] {
+					prov[e[1:]] = true
+					order = append(order, e[1:])
+				}
+			case 'c':
+				delete(prov, e[1:])
+			}
+		}
+	}
+	var out []string
+	for _, l := range order {
+		if !prov[l] {
+			continue
+		}
+		if cid, ok := atoi(strings.SplitN(l, ".", 2)[0]); ok && cid == running {
+			continue
+		}
+		out = append(out, l)
 	}
 	return out
 }
